@@ -130,8 +130,11 @@ def run(rep: Report, tier: str, seed: int) -> None:
             rep.case(lb, True, sample={"input": lb} if hash(lb) % 499 == 0 else None)
         feat = "trees" if kind == "trees" else f"collision:{what}"
         if obs.outcome != "completed":
+            # a run that does not complete writes no layout at all: reported here (these inputs are not in C01's alphabet)
             if kind == "collision":
-                rep.extra["crashed_inputs(C01)"] = rep.extra.get("crashed_inputs(C01)", 0) + 1
+                rep.violation("run-completes", f"run:{obs.outcome}:{obs.crash_sig()}|{feat}|{'nc' if opts.convert else 'py'}", {"input": feat, "exc": obs.exc_type + ": " + obs.exc_msg, "tb": obs.exc_tb[-500:]}, files=files, src_rel=PKG, opts=opts, obs=obs)
+            else:
+                rep.violation("run-completes", f"run:{obs.outcome}:{obs.crash_sig()}|trees|{'nc' if opts.convert else 'py'}", {"exc": obs.exc_type + ": " + obs.exc_msg, "tb": obs.exc_tb[-500:]}, files=None, src_rel=PKG, opts=opts, obs=obs)
             return
         names = all_module_names if kind == "trees" else {Path(k).stem for k in files if not k.endswith("__init__.py")} | {"w", "w2", "PX"}
         for clause, f2, detail in layout_violations(obs.stubs(), obs.files, f"{PKG}__api.json", names):
